@@ -12,6 +12,9 @@
 (***************************************************************************)
 EXTENDS Field
 
+(* Elements are built as explicit tuples: TLC evaluates [i \in S |-> e] lazily at every  *)
+(* application (no caching), which is exponential in the depth of a tower expression.    *)
+Mk(d, F(_)) == IF d = 2 THEN <<F(1), F(2)>> ELSE <<F(1), F(2), F(3)>>
 Deg(T, k) == T.lv[k].deg
 Nr(T, k)  == T.lv[k].nr
 Top(T)    == Len(T.lv)
@@ -19,12 +22,12 @@ Top(T)    == Len(T.lv)
 RECURSIVE TZero(_, _), TOne(_, _), TIsZero(_, _, _), TAdd(_, _, _, _), TSub(_, _, _, _),
           TNeg(_, _, _), TMul(_, _, _, _), TInv(_, _, _), TScale(_, _, _, _), TEmbed(_, _, _, _)
 
-TZero(T, k) == IF k = 0 THEN <<>> ELSE [i \in 1..Deg(T, k) |-> TZero(T, k - 1)]
-TOne(T, k)  == IF k = 0 THEN <<1>> ELSE [i \in 1..Deg(T, k) |-> IF i = 1 THEN TOne(T, k - 1) ELSE TZero(T, k - 1)]
+TZero(T, k) == IF k = 0 THEN <<>> ELSE Mk(Deg(T, k), LAMBDA i : TZero(T, k - 1))
+TOne(T, k)  == IF k = 0 THEN <<1>> ELSE Mk(Deg(T, k), LAMBDA i : IF i = 1 THEN TOne(T, k - 1) ELSE TZero(T, k - 1))
 TIsZero(T, k, x) == x = TZero(T, k)
-TAdd(T, k, x, y) == IF k = 0 THEN FAdd(x, y, T.p) ELSE [i \in 1..Deg(T, k) |-> TAdd(T, k - 1, x[i], y[i])]
-TSub(T, k, x, y) == IF k = 0 THEN FSub(x, y, T.p) ELSE [i \in 1..Deg(T, k) |-> TSub(T, k - 1, x[i], y[i])]
-TNeg(T, k, x)    == IF k = 0 THEN FNeg(x, T.p) ELSE [i \in 1..Deg(T, k) |-> TNeg(T, k - 1, x[i])]
+TAdd(T, k, x, y) == IF k = 0 THEN FAdd(x, y, T.p) ELSE Mk(Deg(T, k), LAMBDA i : TAdd(T, k - 1, x[i], y[i]))
+TSub(T, k, x, y) == IF k = 0 THEN FSub(x, y, T.p) ELSE Mk(Deg(T, k), LAMBDA i : TSub(T, k - 1, x[i], y[i]))
+TNeg(T, k, x)    == IF k = 0 THEN FNeg(x, T.p) ELSE Mk(Deg(T, k), LAMBDA i : TNeg(T, k - 1, x[i]))
 
 (* sum over i + j = m (0-based) of x_i * y_j at level k-1 *)
 RECURSIVE ConvSum(_, _, _, _, _, _)
@@ -36,12 +39,14 @@ ConvSum(T, k, x, y, m, i) ==
 
 TMul(T, k, x, y) ==
     IF k = 0 THEN FMul(x, y, T.p)
-    ELSE LET d == Deg(T, k)
-             c(m) == ConvSum(T, k, x, y, m, 0)          \* m in 0..2d-2
-         IN  [i \in 1..d |->
-                IF i - 1 + d <= 2 * d - 2
-                THEN TAdd(T, k - 1, c(i - 1), TMul(T, k - 1, Nr(T, k), c(i - 1 + d)))
-                ELSE c(i - 1)]
+    ELSE LET d  == Deg(T, k)
+             \* all product coefficients c_0 .. c_(2d-2), computed once, as an explicit tuple
+             cs == IF d = 2 THEN <<ConvSum(T, k, x, y, 0, 0), ConvSum(T, k, x, y, 1, 0), ConvSum(T, k, x, y, 2, 0)>>
+                   ELSE <<ConvSum(T, k, x, y, 0, 0), ConvSum(T, k, x, y, 1, 0), ConvSum(T, k, x, y, 2, 0),
+                          ConvSum(T, k, x, y, 3, 0), ConvSum(T, k, x, y, 4, 0)>>
+         IN  Mk(d, LAMBDA i : IF i - 1 + d <= 2 * d - 2
+                              THEN TAdd(T, k - 1, cs[i], TMul(T, k - 1, Nr(T, k), cs[i + d]))
+                              ELSE cs[i])
 TSqr(T, k, x) == TMul(T, k, x, x)
 
 (* inverse through the norm to the level below (degrees 2 and 3); zero for zero *)
@@ -62,10 +67,10 @@ TInv(T, k, x) ==
          IN  <<M(cA, Fi), M(cB, Fi), M(cC, Fi)>>
 
 (* multiply every base coefficient by the base-field element s *)
-TScale(T, k, x, s) == IF k = 0 THEN FMul(x, s, T.p) ELSE [i \in 1..Deg(T, k) |-> TScale(T, k - 1, x[i], s)]
+TScale(T, k, x, s) == IF k = 0 THEN FMul(x, s, T.p) ELSE Mk(Deg(T, k), LAMBDA i : TScale(T, k - 1, x[i], s))
 (* embed an element of level j <= k into level k *)
 TEmbed(T, j, k, x) == IF j = k THEN x
-                      ELSE [i \in 1..Deg(T, k) |-> IF i = 1 THEN TEmbed(T, j, k - 1, x) ELSE TZero(T, k - 1)]
+                      ELSE Mk(Deg(T, k), LAMBDA i : IF i = 1 THEN TEmbed(T, j, k - 1, x) ELSE TZero(T, k - 1))
 
 (* x^e for a BigNat e (square and multiply, most significant bit first) *)
 RECURSIVE TExpR(_, _, _, _, _, _)
@@ -94,7 +99,7 @@ RECURSIVE TUnflat(_, _, _)
 TUnflat(T, k, s) ==
     IF k = 0 THEN s[1]
     ELSE LET n == TDim(T, k - 1) IN
-         [i \in 1..Deg(T, k) |-> TUnflat(T, k - 1, SubSeq(s, (i - 1) * n + 1, i * n))]
+         Mk(Deg(T, k), LAMBDA i : TUnflat(T, k - 1, SubSeq(s, (i - 1) * n + 1, i * n)))
 RECURSIVE InTower(_, _, _)
 InTower(T, k, x) == IF k = 0 THEN InField(x, T.p)
                     ELSE Len(x) = Deg(T, k) /\ \A i \in 1..Deg(T, k) : InTower(T, k - 1, x[i])
